@@ -6,11 +6,14 @@ The model (Model/GenHistory.lean) is parameterised by a `Semantics` record: how 
 class-level generator state is reset when a generation starts.  `actual` is the library as it is (append mode, no reset),
 `fixed` the repaired behaviour, `current` the one the correspondence check compares the library with on every run.
 
-The three clauses of the property hold for **every** semantics with `pureGen sem` (truncate + reset) — `fixed` is one
-(`C17_fixed_is_pure`), so after the repair the switch is `current := fixed` and the theorems apply to `current` by `hp := by decide`.
-They are FALSE for `actual`: Witness/C17.lean proves the negation of each clause on a concrete history, one per defect.
-What does hold for every semantics — hence for the unchanged code — is `C17_repeatable_partial` (a fresh process and an
-empty directory) and the frame / failure theorems.
+The three clauses of the property hold for **every** semantics with `pureGen sem` (truncate + reset): `…_of_pure`.
+Since a5da5b2 / 6c43d46 / 388f25f the library's generators are such a semantics: `current = fixedGen`, `C17_current_is_pure`,
+and `C17_repeatable`, `C17_regenerate_in_place`, `C17_no_leak_between_specs` are the three clauses **for `current`**, full strength,
+for the ITCH/OUCH/SQF, FIX and ASN.1 generators.  They were FALSE for the library before the repair (`actual`):
+Witness/C17.lean keeps the negation of each clause on a concrete history, one per repaired defect (now regressions).
+The project tool is not repaired (`pyproject.toml` / `tox.ini` still appended to): its clause is
+`C17_regenerate_in_place_new_project_partial` (first run into a tree that has neither file) + the witness
+`Witness.C17.C17_witness_new_project_rerun_current`; the full statement is `C17_new_project_rerun` (holds under `pureProj`).
 
 Quantification: all worlds (`w : World` — any process state and any file-system content, reachable or not) and therefore all
 histories (`run sem w0 h`), all specs, all options, all output directories; no bound on anything.
@@ -232,7 +235,7 @@ theorem C17_written_files_fresh (sem : Semantics) (hp : pureGen sem = true) (i :
 /-- **Clause 1 (repeatable).**  The same spec and options generated twice — after arbitrary histories `h1`, `h2`
     (in one process or in separate ones: `Ev.newProcess` may occur anywhere in them), into directories that are empty —
     give the same outcome, identical directories and the same import result. -/
-theorem C17_repeatable (sem : Semantics) (hp : pureGen sem = true) (i : Inv) (hg : i.isGen = true)
+theorem C17_repeatable_of_pure (sem : Semantics) (hp : pureGen sem = true) (i : Inv) (hg : i.isGen = true)
     (h1 h2 : List Ev) (d1 d2 : Dir)
     (he1 : dirOnly (run sem w0 h1).fs d1 [] = true) (he2 : dirOnly (run sem w0 h2).fs d2 [] = true) :
     (invoke sem (run sem w0 h1) (i.retarget d1)).2 = (invoke sem (run sem w0 h2) (i.retarget d2)).2
@@ -297,7 +300,7 @@ theorem C17_repeatable (sem : Semantics) (hp : pureGen sem = true) (i : Inv) (hg
     previous output of the same target (same generator, app name, prefix, init flag — the spec may have been edited
     in between; for the ASN.1 generator, which empties the directory first, *any* directory) leaves exactly the directory
     a fresh single run produces — hence a package that imports exactly as the fresh one does and reflects the current spec. -/
-theorem C17_regenerate_in_place (sem : Semantics) (hp : pureGen sem = true) (i : Inv) (hg : i.isGen = true) (h : List Ev)
+theorem C17_regenerate_in_place_of_pure (sem : Semantics) (hp : pureGen sem = true) (i : Inv) (hg : i.isGen = true) (h : List Ev)
     (hok : (invoke sem w0 i).2 = .ok ())
     (hdir : dirOnly (run sem w0 h).fs i.dir (targetNames i) = true) :
     (invoke sem (run sem w0 h) i).2 = .ok ()
@@ -332,8 +335,8 @@ theorem C17_regenerate_in_place_asn1 (sem : Semantics) (hp : pureGen sem = true)
 /-- **Clause 3 (no leak between specs).**  Generating B after any history (any specs A…, same process or not, same
     directory or not) gives the same outcome as generating B alone, and every file B writes is exactly the file B alone
     writes — nothing of A in it.  (Files B does not write are untouched: `C17_frame`; a directory that was empty equals
-    the fresh one: `C17_repeatable`.) -/
-theorem C17_no_leak_between_specs (sem : Semantics) (hp : pureGen sem = true) (b : Inv) (hg : b.isGen = true) (h : List Ev) :
+    the fresh one: `C17_repeatable_of_pure`.) -/
+theorem C17_no_leak_between_specs_of_pure (sem : Semantics) (hp : pureGen sem = true) (b : Inv) (hg : b.isGen = true) (h : List Ev) :
     (invoke sem (run sem w0 h) b).2 = (invoke sem w0 b).2
     ∧ ((invoke sem w0 b).2 = .ok () → ∀ n, n ∈ targetNames b →
         read (invoke sem (run sem w0 h) b).1.fs (b.dir, n) = read (invoke sem w0 b).1.fs (b.dir, n)) :=
@@ -342,10 +345,10 @@ theorem C17_no_leak_between_specs (sem : Semantics) (hp : pureGen sem = true) (b
 /-- What holds for EVERY semantics, in particular for the unchanged library (`actual`): an invocation that runs in a
     fresh process (`st0`) into an empty directory and writes no file twice gives the same outcome and the same directory
     as when it runs alone — whatever else the file system holds.
-    Full statement (clause 1 without "fresh process", clauses 2 and 3) is `C17_repeatable` / `C17_regenerate_in_place` /
-    `C17_no_leak_between_specs` above; for `actual` they are false (Witness/C17.lean), the missing part is exactly
+    Full statement (clause 1 without "fresh process", clauses 2 and 3) is `C17_repeatable_of_pure` / `C17_regenerate_in_place_of_pure` /
+    `C17_no_leak_between_specs_of_pure` above; for `actual` they are false (Witness/C17.lean), the missing part is exactly
     `pureGen`: files opened with 'w', class-level state reset per generation. -/
-theorem C17_repeatable_partial (sem : Semantics) (i : Inv) (hg : i.isGen = true) (fs : FS)
+theorem C17_fresh_process_empty_dir_any_semantics (sem : Semantics) (i : Inv) (hg : i.isGen = true) (fs : FS)
     (hnd : (targetNames i).Nodup) (hempty : dirOnly fs i.dir [] = true) :
     (invoke sem ⟨st0, fs⟩ i).2 = (invoke sem w0 i).2
     ∧ dirView (invoke sem ⟨st0, fs⟩ i).1.fs i.dir = dirView (invoke sem w0 i).1.fs i.dir := by
@@ -441,6 +444,76 @@ theorem C17_new_project_rerun (sem : Semantics) (hp : pureProj sem = true) (w : 
   | some v => rw [hr] at hv; exact hv
   | none => rfl
 
+/-- For every semantics (in particular `current`, which still appends): the first run of the project tool into a tree that
+    has neither `pyproject.toml` nor `tox.ini` writes exactly the fresh files, and both parse.
+    **Partial**: the full clause — re-running on an existing project leaves files that parse and a `tox.ini` for the current
+    application list — is `C17_new_project_rerun` above; it needs `pureProj sem`, which `current` does not satisfy
+    (`Witness.C17.C17_witness_new_project_rerun_current`: the second run leaves two renderings in each file).
+    Missing: `_write_pyproject` / `_write_tox` open with 'a' (known finding `new-project-rerun`). -/
+theorem C17_regenerate_in_place_new_project_partial (sem : Semantics) (w : World) (t : Nat) (name : Str)
+    (apps : List (Str × Impl)) (hd : dupApps apps = false)
+    (h1 : read w.fs (.proj t name, sPyproject) = none) (h2 : read w.fs (.proj t name, sTox) = none) :
+    read (invoke sem w (.newProject t name apps)).1.fs (.proj t name, sTox) = some [.tox (srcName name) apps]
+    ∧ read (invoke sem w (.newProject t name apps)).1.fs (.proj t name, sPyproject) = some [.pyproject name]
+    ∧ configValid (read (invoke sem w (.newProject t name apps)).1.fs (.proj t name, sTox)) = true
+    ∧ configValid (read (invoke sem w (.newProject t name apps)).1.fs (.proj t name, sPyproject)) = true := by
+  have hne : (Dir.proj t name, sTox) ≠ (Dir.proj t name, sPyproject) := by
+    intro e; injection e with _ e2; revert e2; decide
+  have hbase : ∀ p : Path, p.1 = Dir.proj t name →
+      read (write Mode.ifAbsent (List.foldl (fun fs a => write a.mode fs a.path a.chunks) w.fs
+        (apps.map fun a => (⟨(.app t name a.1, a.1 ++ sXml), .ifAbsent, [.appXml]⟩ : Action)))
+        (Dir.pkg t name, sInit ++ sPy) []) p = read w.fs p := by
+    intro p hpd
+    rw [read_write_other _ _ _ _ _ (by intro e; rw [e] at hpd; cases hpd)]
+    apply read_applyActs_notin
+    intro a ha e
+    simp only [List.mem_map] at ha
+    obtain ⟨x, _, rfl⟩ := ha
+    rw [← e] at hpd
+    cases hpd
+  have hpy : read (invoke sem w (.newProject t name apps)).1.fs (.proj t name, sPyproject) = some [.pyproject name] := by
+    simp only [invoke, plan, planNewProject, hd, Bool.false_eq_true, if_false, applyPlan, applyActs, List.foldl_append,
+      List.foldl_cons, List.foldl_nil]
+    rw [read_write_other _ _ _ _ _ hne.symm]
+    exact read_write_absent _ _ _ _ (by rw [hbase _ rfl, h1])
+  have htox : read (invoke sem w (.newProject t name apps)).1.fs (.proj t name, sTox) = some [.tox (srcName name) apps] := by
+    simp only [invoke, plan, planNewProject, hd, Bool.false_eq_true, if_false, applyPlan, applyActs, List.foldl_append,
+      List.foldl_cons, List.foldl_nil]
+    apply read_write_absent
+    rw [read_write_other _ _ _ _ _ hne, hbase _ rfl, h2]
+  exact ⟨htox, hpy, by rw [htox]; rfl, by rw [hpy]; rfl⟩
+
+/-! ## the three clauses for the library as it is now (`current`) -/
+
+/-- The generators of the current library open their files with 'w' and reset their class-level state per generation;
+    the project tool does not (`pureProj current = false`). -/
+theorem C17_current_is_pure : pureGen current = true ∧ pureProj current = false := by decide
+
+/-- **Clause 1 for `current`** — see `C17_repeatable_of_pure`. -/
+theorem C17_repeatable (i : Inv) (hg : i.isGen = true) (h1 h2 : List Ev) (d1 d2 : Dir)
+    (he1 : dirOnly (run current w0 h1).fs d1 [] = true) (he2 : dirOnly (run current w0 h2).fs d2 [] = true) :
+    (invoke current (run current w0 h1) (i.retarget d1)).2 = (invoke current (run current w0 h2) (i.retarget d2)).2
+    ∧ dirView (invoke current (run current w0 h1) (i.retarget d1)).1.fs d1
+        = dirView (invoke current (run current w0 h2) (i.retarget d2)).1.fs d2
+    ∧ importAfter current (run current w0 h1) (i.retarget d1) = importAfter current (run current w0 h2) (i.retarget d2) :=
+  C17_repeatable_of_pure current (by decide) i hg h1 h2 d1 d2 he1 he2
+
+/-- **Clause 2 for `current`** — see `C17_regenerate_in_place_of_pure`. -/
+theorem C17_regenerate_in_place (i : Inv) (hg : i.isGen = true) (h : List Ev)
+    (hok : (invoke current w0 i).2 = .ok ())
+    (hdir : dirOnly (run current w0 h).fs i.dir (targetNames i) = true) :
+    (invoke current (run current w0 h) i).2 = .ok ()
+    ∧ dirView (invoke current (run current w0 h) i).1.fs i.dir = dirView (invoke current w0 i).1.fs i.dir
+    ∧ importAfter current (run current w0 h) i = importAfter current w0 i :=
+  C17_regenerate_in_place_of_pure current (by decide) i hg h hok hdir
+
+/-- **Clause 3 for `current`** — see `C17_no_leak_between_specs_of_pure`. -/
+theorem C17_no_leak_between_specs (b : Inv) (hg : b.isGen = true) (h : List Ev) :
+    (invoke current (run current w0 h) b).2 = (invoke current w0 b).2
+    ∧ ((invoke current w0 b).2 = .ok () → ∀ n, n ∈ targetNames b →
+        read (invoke current (run current w0 h) b).1.fs (b.dir, n) = read (invoke current w0 b).1.fs (b.dir, n)) :=
+  C17_no_leak_between_specs_of_pure current (by decide) b hg h
+
 /-! ## non-vacuity: concrete invocations that satisfy the hypotheses, and what the theorems give for them -/
 
 section examples
@@ -463,6 +536,14 @@ example : read (run fixed w0 [.inv (.fix fixA optsX), .inv (.fix fixB { optsX wi
     = read (run fixed w0 [.inv (.fix fixB { optsX with dir := .out 2 })]).fs (.out 2, prefix_ [] ++ sFix ++ [120] ++ sGroups ++ sPy) := by
   decide
 example : (targetNames (.fix fixA optsX)).Nodup := by decide
+-- the same for the library as it is now
+example : (invoke current w0 (.soup .ouch specA optsX)).2 = .ok () := by decide
+example : dirOnly (run current w0 [.inv (.soup .ouch specA optsX)]).fs (Dir.out 1)
+    (targetNames (.soup .ouch specA optsX)) = true := by decide
+example : importAfter current (run current w0 [.inv (.fix fixA optsX), .inv (.fix fixA optsX)]) (.fix fixA optsX) = .ok () := by decide
+-- a 4.2 dictionary without groups generates (Fix42Session); one with a NUMINGROUP field fails in `parse` (KeyError)
+example : (invoke current w0 (.fix ⟨3, 42, [1], [1], [], []⟩ optsX)).2 = .ok () := by decide
+example : (invoke current w0 (.fix { fixA with version := 42 } optsX)).2 = .error .key := by decide
 example : dupApps [([111, 101], Impl.ouch), ([109, 100], Impl.itch)] = false := by decide
 end examples
 
